@@ -175,33 +175,53 @@ Definition prop_ok (prop : str) : Prop := prop <> [] /\ Forall (fun c => is_az_d
 Definition group_ok (g : str) : Prop :=
   Forall (fun c => is_gchar c = true) g /\ match g with c :: _ => is_py_space c = false | [] => False end.
 
-Lemma re_property_value prop g : prop_ok prop -> group_ok g ->
-  re_property_match (prop ++ c_colon :: g) = Some (prop, Some g).
+(* white space after the colon, semicolons at the end *)
+Definition blanks (ws : str) : Prop := Forall (fun c => is_py_space c = true) ws.
+Definition semis (ss : str) : Prop := Forall (fun c => (c_semi =? c)%N = true) ss.
+
+Lemma try_group_back_at (ws g : str) (x : option str) : blanks ws -> try_group g = x -> x <> None ->
+  try_group_back (ws ++ g) (length ws) = x.
 Proof.
-  intros [Hne Hp] [Hg Hg0]. unfold re_property_match.
-  rewrite (cspan_app is_az_dash prop (c_colon :: g) Hp eq_refl).
+  intros _ Hx Hn. destruct ws as [|w0 wr]; cbn [length try_group_back].
+  - cbn [skipn app]. rewrite Hx. destruct x; [reflexivity|contradiction].
+  - change (S (length wr)) with (length (w0 :: wr)). rewrite skipn_app_exact, Hx. destruct x; [reflexivity|contradiction].
+Qed.
+
+Lemma re_property_value prop ws g ss : prop_ok prop -> blanks ws -> group_ok g -> semis ss ->
+  re_property_match (prop ++ c_colon :: ws ++ g ++ ss) = Some (prop, Some g).
+Proof.
+  intros [Hne Hp] Hws [Hg Hg0] Hss. unfold re_property_match.
+  rewrite (cspan_app is_az_dash prop (c_colon :: ws ++ g ++ ss) Hp eq_refl).
   destruct (length prop) as [|n] eqn:El; [destruct prop; [contradiction|discriminate]|]. rewrite <- El.
   rewrite firstn_app_exact, skipn_app_exact.
-  change (cspan is_py_space (c_colon :: g)) with 0. cbn [skipn]. rewrite N.eqb_refl.
-  destruct g as [|g0 gr]; [contradiction|]. cbn [cspan]. rewrite Hg0. cbn [try_group_back skipn].
-  unfold try_group. rewrite (cspan_all is_gchar (g0 :: gr) Hg). cbn [length].
-  change (S (length gr)) with (length (g0 :: gr)). rewrite skipn_all, firstn_all. reflexivity.
+  change (cspan is_py_space (c_colon :: ws ++ g ++ ss)) with 0. cbn [skipn]. rewrite N.eqb_refl.
+  destruct g as [|g0 gr]; [contradiction|].
+  rewrite (cspan_app is_py_space ws ((g0 :: gr) ++ ss) Hws) by (cbn [app cpeek_p]; exact Hg0).
+  assert (Htg : try_group ((g0 :: gr) ++ ss) = Some (g0 :: gr)).
+  { unfold try_group.
+    assert (Hs0 : cpeek_p is_gchar ss = false).
+    { destruct ss as [|s0 sr]; [reflexivity|]. inversion Hss as [|? ? H0 _]; subst. apply N.eqb_eq in H0. subst s0. reflexivity. }
+    rewrite (cspan_app is_gchar (g0 :: gr) ss Hg Hs0). cbn [length].
+    change (S (length gr)) with (length (g0 :: gr)). rewrite skipn_app_exact, firstn_app_exact.
+    rewrite (cspan_all (N.eqb c_semi) ss Hss), skipn_all. reflexivity. }
+  rewrite (try_group_back_at ws ((g0 :: gr) ++ ss) _ Hws Htg) by discriminate. reflexivity.
 Qed.
 
 (* THEOREM: the snippet text `prop:alt1|alt2|...` whose first alternative is a written value becomes the property
    snippet whose first alternative is one value holding the tokens of that written value *)
-Theorem create_snippet_value key prop v others pothers :
-  prop_ok prop -> toks_ok v -> v <> [] ->
+Theorem create_snippet_value key prop ws ss v others pothers :
+  prop_ok prop -> blanks ws -> semis ss -> toks_ok v -> v <> [] ->
   group_ok (join [c_pipe] (render v :: others)) ->
   no_char c_pipe (render v) -> Forall (no_char c_pipe) others ->
   map_res parse_value others = Ok pothers ->
   exists pv kws,
-    create_snippet key (prop ++ c_colon :: join [c_pipe] (render v :: others)) = Ok (SnProp key prop ([pv] :: pothers) kws []) /\
+    create_snippet key (prop ++ c_colon :: ws ++ join [c_pipe] (render v :: others) ++ ss)
+    = Ok (SnProp key prop ([pv] :: pothers) kws []) /\
     map unpos pv = map cv_tok v.
 Proof.
-  intros Hprop Hok Hne Hg Hnp Hop Hpo. destruct (parse_value_render v Hok Hne) as [pv [Hpv Hu]].
+  intros Hprop Hws Hss Hok Hne Hg Hnp Hop Hpo. destruct (parse_value_render v Hok Hne) as [pv [Hpv Hu]].
   exists pv. eexists. split; [|exact Hu]. unfold create_snippet.
-  rewrite (re_property_value prop _ Hprop Hg). rewrite (split_join c_pipe (render v) others Hnp Hop).
+  rewrite (re_property_value prop ws _ ss Hprop Hws Hg Hss). rewrite (split_join c_pipe (render v) others Hnp Hop).
   cbn [map_res]. rewrite Hpv. cbn [bind]. rewrite Hpo. cbn [bind]. reflexivity.
 Qed.
 
@@ -292,9 +312,9 @@ End FromParse.
 
 (* ================================================================== END TO END, from config.snippets *)
 (* several alternatives: every leaf of the first in a tabstop, numbered from 1 in document order *)
-Theorem user_snippet_wrapped cfg raw sn key prop v o others po pothers :
+Theorem user_snippet_wrapped cfg raw sn key prop ws ss v o others po pothers :
   convert_snippets raw = Ok sn -> NoDup (map (fun kv => lower (fst kv)) raw) ->
-  In (key, prop ++ c_colon :: join [c_pipe] (render v :: o :: others)) raw ->
+  In (key, prop ++ c_colon :: ws ++ join [c_pipe] (render v :: o :: others) ++ ss) raw -> blanks ws -> semis ss ->
   name_ok key -> str_eqb key gradient_name = false -> c_context cfg = None -> c_json cfg = false ->
   prop_ok prop -> toks_ok v -> v <> [] ->
   group_ok (join [c_pipe] (render v :: o :: others)) ->
@@ -304,8 +324,8 @@ Theorem user_snippet_wrapped cfg raw sn key prop v o others po pothers :
   expand_with cfg sn key =
   Ok (prop ++ c_between cfg ++ wprint (relabel (field_of cfg) (map (printed cfg) v)) ++ c_after cfg).
 Proof.
-  intros Hconv Hnd Hin Hk Hg Hc Hj Hprop Hok Hne Hgr Hnp Hop Hpo Hb.
-  destruct (create_snippet_value key prop v (o :: others) (po :: pothers) Hprop Hok Hne Hgr Hnp Hop Hpo) as [pv [kws [Hcs Hu]]].
+  intros Hconv Hnd Hin Hws Hss Hk Hg Hc Hj Hprop Hok Hne Hgr Hnp Hop Hpo Hb.
+  destruct (create_snippet_value key prop ws ss v (o :: others) (po :: pothers) Hprop Hws Hss Hok Hne Hgr Hnp Hop Hpo) as [pv [kws [Hcs Hu]]].
   destruct (raw_key_reaches_property_snippet cfg raw sn key _ prop _ kws Hconv Hnd Hin Hcs Hk Hg Hc Hj) as [deps [_ He]].
   rewrite He. f_equal.
   rewrite (own_line_wrapped cfg key prop pv po pothers kws deps Hj (wrappable_parsed v pv Hu Hok) Hb).
@@ -313,9 +333,9 @@ Proof.
 Qed.
 
 (* one alternative: printed unwrapped *)
-Theorem user_snippet_plain cfg raw sn key prop v :
+Theorem user_snippet_plain cfg raw sn key prop ws ss v :
   convert_snippets raw = Ok sn -> NoDup (map (fun kv => lower (fst kv)) raw) ->
-  In (key, prop ++ c_colon :: render v) raw ->
+  In (key, prop ++ c_colon :: ws ++ render v ++ ss) raw -> blanks ws -> semis ss ->
   name_ok key -> str_eqb key gradient_name = false -> c_context cfg = None -> c_json cfg = false ->
   prop_ok prop -> toks_ok v -> v <> [] ->
   group_ok (render v) -> no_char c_pipe (render v) ->
@@ -323,8 +343,8 @@ Theorem user_snippet_plain cfg raw sn key prop v :
   nobreakb (prop ++ c_between cfg) = true ->
   expand_with cfg sn key = Ok (prop ++ c_between cfg ++ wprint (map (printed cfg) v) ++ c_after cfg).
 Proof.
-  intros Hconv Hnd Hin Hk Hg Hc Hj Hprop Hok Hne Hgr Hnp Hpr Hun Hb.
-  destruct (create_snippet_value key prop v [] [] Hprop Hok Hne Hgr Hnp (Forall_nil _) eq_refl) as [pv [kws [Hcs Hu]]].
+  intros Hconv Hnd Hin Hws Hss Hk Hg Hc Hj Hprop Hok Hne Hgr Hnp Hpr Hun Hb.
+  destruct (create_snippet_value key prop ws ss v [] [] Hprop Hws Hss Hok Hne Hgr Hnp (Forall_nil _) eq_refl) as [pv [kws [Hcs Hu]]].
   cbn [join] in Hcs.
   destruct (raw_key_reaches_property_snippet cfg raw sn key _ prop _ kws Hconv Hnd Hin Hcs Hk Hg Hc Hj) as [deps [_ He]].
   rewrite He. f_equal.
@@ -335,9 +355,9 @@ Qed.
 
 (* "as written": when every token prints as it is written (canonical numbers and colours), the line is the
    property, the separator and the first alternative verbatim *)
-Corollary user_snippet_plain_verbatim cfg raw sn key prop v :
+Corollary user_snippet_plain_verbatim cfg raw sn key prop ws ss v :
   convert_snippets raw = Ok sn -> NoDup (map (fun kv => lower (fst kv)) raw) ->
-  In (key, prop ++ c_colon :: render v) raw ->
+  In (key, prop ++ c_colon :: ws ++ render v ++ ss) raw -> blanks ws -> semis ss ->
   name_ok key -> str_eqb key gradient_name = false -> c_context cfg = None -> c_json cfg = false ->
   prop_ok prop -> toks_ok v -> v <> [] ->
   group_ok (render v) -> no_char c_pipe (render v) ->
@@ -346,7 +366,7 @@ Corollary user_snippet_plain_verbatim cfg raw sn key prop v :
   map (printed cfg) v = map written v ->
   expand_with cfg sn key = Ok (prop ++ c_between cfg ++ render v ++ c_after cfg).
 Proof.
-  intros Hconv Hnd Hin Hk Hg Hc Hj Hprop Hok Hne Hgr Hnp Hpr Hun Hb Hcan.
-  rewrite (user_snippet_plain cfg raw sn key prop v Hconv Hnd Hin Hk Hg Hc Hj Hprop Hok Hne Hgr Hnp Hpr Hun Hb), Hcan.
+  intros Hconv Hnd Hin Hws Hss Hk Hg Hc Hj Hprop Hok Hne Hgr Hnp Hpr Hun Hb Hcan.
+  rewrite (user_snippet_plain cfg raw sn key prop ws ss v Hconv Hnd Hin Hws Hss Hk Hg Hc Hj Hprop Hok Hne Hgr Hnp Hpr Hun Hb), Hcan.
   reflexivity.
 Qed.
